@@ -36,6 +36,10 @@ for pid, text, tech in [
      "property-based testing: metamorphic relation over the formatter option product (Hypothesis + enumeration)"),
     ("C10", "Exhaustive enumeration of all well-typed expression trees up to 3/4 operators plus Hypothesis-drawn larger trees with every operator spelling, operand kind and redundant parenthesisation; oracle: an independent precedence-climbing reference parser re-reads the normalised string and must obtain the same tree, independent reader checks the printed form, fixed point on re-parse.",
      "property-based testing: reference parser oracle; exhaustive small trees + Hypothesis random trees"),
+    ("C11", "Generated-input search: Hypothesis-drawn token-level mutations of corpus files and generated documents, token soups over the whole vocabulary, a fixed family of unterminated constructs / every block type at the root / malformed INCLUDE lines / nesting at the stated bounds, and a CPU-time growth-exponent measurement on long repetitive inputs; oracle: outcome is a dict / list of dicts or a LarkError with a position inside the text (OSError only with an INCLUDE line).",
+     "fuzzing / property-based testing: mutation + token-soup generators with an outcome-classification oracle (Hypothesis; atheris in the thorough tier)"),
+    ("C19", "Complete enumeration of the finite vocabulary product (block type x parent context x schema property x position x value alternative x representative value) as minimal document models, plus all parent/child edges, all declared defaults and create(type, version) over all schema files x 7 versions; oracle: reference dictionary, printer log records, round trip, validation messages.",
+     "exhaustive enumeration of a finite configuration product with a reference-model oracle"),
     ("C16", DOC + "oracle: an independent reader of the printed text checks the layout contract line by line.",
      "property-based testing: independent reader / validity predicate over documents x option sets (Hypothesis)"),
     ("C17", "Exhaustive breadth-first exploration of every reachable state over a small key/value alphabet with every operation applied in every state, exhaustive operation sequences from the empty dict up to a length bound, and a Hypothesis rule-based state machine for long histories; oracle: reference model (OrderedDict keyed by lower-cased keys + default rule).",
